@@ -146,3 +146,22 @@ Definition run_obs_files (src : text) (files : list (text * text)) : text :=
   run_with src (mkOracle [] [] 1700000000000%float files) [].
 Definition run_obs_libm (src : text) (tab : list (string * list N * N)) : text :=
   run_with src (mkOracle tab [] 1700000000000%float []) [].
+
+(** the reference semantics (EvalSpec) on the same channel: used as the direct oracle of C01-C03 *)
+From Aplang Require Import EvalSpec.
+
+Definition spec_with (src : text) (orc0 : oracle) (stdin0 : text) : text :=
+  match lex src with
+  | LexErr es => sb "LEX" ++ lex_result_obs (LexErr es)
+  | LexFuel => sb "FUEL"
+  | LexOk ts =>
+    match parse_tokens ts with
+    | ParseOk prog => res_obs (run_spec run_fuel prog (fresh_state [] [] stdin0 orc0 []))
+    | ParseErr es => sb "PARSE" ++ parse_result_obs (ParseErr es)
+    | ParsePanic _ => sb "PANIC"
+    | ParseFuel => sb "FUEL"
+    end
+  end.
+Definition spec_obs (src : text) : text := spec_with src no_oracle [].
+(* implementation model | reference semantics *)
+Definition both_obs (src : text) : text := run_obs src ++ [124] ++ spec_obs src.
